@@ -904,3 +904,38 @@ impl<const T: u8> snow::resolvers::CryptoResolver for TagResolver<T> {
         }
     }
 }
+
+
+/// Resolver over the FREE toy primitives (endpoint A ids): lets the real `Builder` be compared with the reference
+/// model byte for byte (what the builder passes on - name, prologue, keys, PSKs - must arrive unaltered).
+pub struct ToyResolver;
+pub static mut TOY_DH_CALLS: usize = 0;
+pub static mut TOY_CIPHER_CALLS: usize = 0;
+impl snow::resolvers::CryptoResolver for ToyResolver {
+    fn resolve_rng(&self) -> Option<Box<dyn Random>> {
+        Some(Box::new(SRng))
+    }
+    fn resolve_dh(&self, _: &snow::params::DHChoice) -> Option<Box<dyn Dh>> {
+        unsafe {
+            TOY_DH_CALLS += 1;
+            if TOY_DH_CALLS == 1 {
+                Some(Box::new(SDh::<4, 4, 0>))
+            } else {
+                Some(Box::new(SDh::<4, 4, 1>))
+            }
+        }
+    }
+    fn resolve_hash(&self, _: &snow::params::HashChoice) -> Option<Box<dyn Hash>> {
+        Some(Box::new(SHash::<8, 0>))
+    }
+    fn resolve_cipher(&self, _: &snow::params::CipherChoice) -> Option<Box<dyn Cipher>> {
+        unsafe {
+            TOY_CIPHER_CALLS += 1;
+            match TOY_CIPHER_CALLS {
+                1 => Some(Box::new(SCipher::<0>)),
+                2 => Some(Box::new(SCipher::<1>)),
+                _ => Some(Box::new(SCipher::<2>)),
+            }
+        }
+    }
+}
